@@ -137,7 +137,7 @@ def _make_pool_class():
 
         def __init__(self, sched, n, stop, tag):
             self.q = threads.SimQueue()
-            self.stop = stop
+            self.closed = False          # set by shutdown(), which the owner calls after its worker loop has returned
             for k in range(n):
                 sched.spawn(f"pool_{tag}_{k}", self._run)
 
@@ -148,15 +148,20 @@ def _make_pool_class():
 
         def _run(self):
             import queue as _q
-            while not self.stop.is_set():
+            while True:
                 try:
                     f, fn, args, kwargs = self.q.get(timeout=0.2)
                 except _q.Empty:
+                    if self.closed:
+                        return          # the pool outlives its worker: it only ends once nobody can submit any more
                     continue
                 try:
                     f.set_result(fn(*args, **kwargs))
                 except BaseException as e:  # noqa: BLE001
                     f.set_exception(e)
+
+        def shutdown(self):
+            self.closed = True
 
     return _SimPoolExecutor
 
@@ -234,7 +239,12 @@ def execute(sc: dict, seed: int) -> dict:
                 def run():
                     if spec["start_delay"]:
                         threads.sim_sleep(spec["start_delay"])
-                    wk.worker_loop(i, tr, make_executor(i), ws, logger=lg, poll_interval=spec["poll"])
+                    ex = make_executor(i)
+                    try:
+                        wk.worker_loop(i, tr, ex, ws, logger=lg, poll_interval=spec["poll"])
+                    finally:
+                        if hasattr(ex, "shutdown"):
+                            ex.shutdown()
                 return run
 
             def churner():
